@@ -125,7 +125,7 @@ pub fn run(ctx: &mut Ctx) {
     let alphabet = rand_free(&names);
     install_observer();
     let i = |n: &str| SItem::Instr(n.to_string());
-    let ncase = ctx.n(6000, 150000);
+    let ncase = ctx.n(12000, 300000);
     for k in 0..ncase as u64 {
         if !ctx.mine(k) {
             continue;
@@ -134,7 +134,7 @@ pub fn run(ctx: &mut Ctx) {
         // one case in 25 uses the default limits (1000 steps, cap 500)
         // mostly small limits; one case in 25 uses the default (1000); one in 40 a large budget
         // (2048..10000: thresholds, polling intervals and counters tied to the budget's magnitude)
-        let big_limit = k % 40 == 39 && (ctx.profile == "release" || k % 320 == 39);
+        let big_limit = if ctx.quick() { k % 40 == 39 && (ctx.profile == "release" || k % 320 == 39) } else { k % 400 == 39 && (ctx.profile == "release" || k % 3200 == 39) };
         let limit: i32 = if big_limit {
             *r.pick(&[2047, 2048, 2049, 3000, 4097, 5000, 10000])
         } else if k % 25 == 24 {
